@@ -242,7 +242,7 @@ func runCell(c cell, d *sched.DFS) (out schedOutcome) {
 			}
 			return
 		}
-		if l == "" || strings.HasSuffix(point, ".locked") || point == "cck.destroy" {
+		if l == "" || strings.HasSuffix(point, ".locked") || point == "cck.destroy" || strings.HasPrefix(point, "auto.before_lock") {
 			return
 		}
 		w := byLabel[l]
